@@ -149,9 +149,16 @@ def rule_c11_r2(model: Model) -> RuleResult:
         if not subs:
             r.fail(f.qualname, 'no member try_convert in loop', f.loc(lp.ast), "the member loop does not consult the members' fast pass")
             continue
-        rets = [n for n in cfg.live_nodes() if n.kind == 'return' and lp.ast in n.loop_of]
+        # ways of leaving the loop early (return inside it, or break): every normal edge from a node of the body to a node outside it
+        leaves = []
+        for a_ in cfg.live_nodes():
+            if lp.ast not in a_.loop_of or a_ is lp or a_.kind == 'raise':
+                continue
+            for (lb_, b_) in a_.succ:
+                if lb_ != 'exc' and lp.ast not in b_.loop_of and b_ is not lp and b_.kind != 'raise_exit':
+                    leaves.append(a_)
         good = False
-        for rn in rets:
+        for rn in leaves:
             if any(cfg.node_dominates(sc.node, rn) or sc.node is rn for sc in subs):
                 good = True
         if good:
